@@ -11,6 +11,7 @@ import (
 	"os"
 	"path/filepath"
 	"runtime/debug"
+	"runtime/pprof"
 	"sort"
 	"strings"
 	"time"
@@ -101,7 +102,14 @@ func main() {
 		c.applyMutant(*mutant)
 	}
 	c.load(pc.pkgs)
+	c.note("load: %.1fs", time.Since(c.start).Seconds())
+	if pf := os.Getenv("CUECHECK_CPUPROFILE"); pf != "" {
+		f, _ := os.Create(pf)
+		pprof.StartCPUProfile(f)
+		defer pprof.StopCPUProfile()
+	}
 	pc.run(c)
+	pprof.StopCPUProfile()
 	if c.Tier == "thorough" && *mutant == "" {
 		// The thorough tier additionally proves that the rules can fire:
 		// every registered mutant of this property must be reported.
